@@ -80,6 +80,8 @@ WRITE_FLAGS = ("O_WRONLY", "O_RDWR", "O_CREAT", "O_TRUNC", "O_APPEND", "O_TMPFIL
 
 def unescape(s):
     """strace C-string -> python str (octal / common escapes)."""
+    if "\\" not in s:
+        return s
     out = bytearray()
     i = 0
     b = s.encode("latin-1", "replace")
@@ -154,7 +156,11 @@ class Log:
             c.mut = False
             c.flags = ""
             ok = c.ret not in ("?",) and not c.ret.startswith("-")
-            if c.name not in INTERESTING:
+            if (
+                c.name not in INTERESTING
+                or (c.name in OPEN_CALLS and c.name != "creat" and not any(f in c.args for f in WRITE_FLAGS))
+                or (c.name not in OPEN_CALLS and c.name not in PATH_MUT and root not in c.args)
+            ):
                 c.key = None
                 self.calls.append(c)
                 continue
@@ -793,44 +799,50 @@ def check_input(run, inp, mode, explored, states, contrast):
 
 
 def report(run, case, inp, mode, refs, results, bad, singles):
+    """One violation per (input, mode): `what` names every violated clause with its number of failing
+    no-fault / single-fault runs (identical in both tiers) and the smallest failing fault sequence."""
     if not bad:
         return
-    by_class = {}
-    for fl, c, f, txt in bad:
-        by_class.setdefault(c, []).append((fl, f, txt))
     argv_fn = lambda root: subject_argv(inp, mode, root)  # noqa: E731
-    for cls, items in sorted(by_class.items()):
-        labels = []
-        for fl, _f, _t in items:
-            if fault_label(fl) not in labels:
-                labels.append(fault_label(fl))
-        nsingle = len({fault_label(fl) for fl, _f, _t in items if len(fl) <= 1})
-        first_fl, first_file, first_txt = items[0]
-        # determinism: re-run the first failing point once
-        what = f"{cls}: {nsingle} of {singles} no-fault/single-fault runs, first at {labels[0]}"
-        if cls != "order":
-            try:
-                again = rerun(argv_fn, inp, first_fl)
-                v2 = {c for c, _f, _t in judge(inp, refs, again, first_fl)}
-                if cls not in v2:
-                    what = f"nondeterministic: {cls} at {labels[0]} did not reproduce"
-            except Machinery as e:
-                what = f"nondeterministic: re-run of {labels[0]} failed: {e}"
-        detail = {
-            "input": inp["name"],
-            "mode": mode,
-            "argv": ["rustfmt"] + MODES[mode][0] + inp["args"],
-            "files_b64": {k: b64(v) for k, v in inp["files"].items()},
-            "targets": inp["targets"],
-            "class": cls,
-            "first": {"faults": first_fl, "file": first_file, "observed": first_txt},
-            "expected": "original in {FILE, FILE.bk}; FILE in {absent, original, formatted}; uninterrupted run: FILE=formatted, BK=original, exit 0; injected error: exit 1; order write(tmp) -> rename(FILE,bk) -> rename(tmp,FILE)",
-            "recorded_mutating_calls": [results[0][1]["log"].short(c) for c in results[0][1]["log"].muts],
-            "failing": [{"faults": fl, "label": fault_label(fl), "file": f, "observed": t} for fl, f, t in items[:60]],
-            "failing_total": len(items),
-            "shell": shell_repro(inp, mode, first_fl),
-        }
-        run.violation(case, what, detail)
+    classes = {}
+    for fl, c, _f, _t in bad:
+        e = classes.setdefault(c, {"single": set(), "all": set()})
+        e["all"].add(fault_label(fl))
+        if len(fl) <= 1:
+            e["single"].add(fault_label(fl))
+    first_fl, first_cls, first_file, first_txt = bad[0]
+    for x in bad:  # bad is in simplest-first order except the order clause appended last
+        if x[1] != "order":
+            first_fl, first_cls, first_file, first_txt = x
+            break
+    what = (
+        ", ".join(f"{c} in {len(e['single'])}" for c, e in sorted(classes.items()))
+        + f" of {singles} no-fault/single-fault runs; first at {fault_label(first_fl)}"
+    )
+    # determinism: re-run the first failing point once
+    if first_cls != "order":
+        try:
+            again = rerun(argv_fn, inp, first_fl)
+            if first_cls not in {c for c, _f, _t in judge(inp, refs, again, first_fl)}:
+                what = f"nondeterministic: {first_cls} at {fault_label(first_fl)} did not reproduce"
+        except Machinery as e:
+            what = f"nondeterministic: re-run of {fault_label(first_fl)} failed: {e}"
+    detail = {
+        "input": inp["name"],
+        "mode": mode,
+        "argv": ["rustfmt"] + MODES[mode][0] + inp["args"],
+        "files_b64": {k: b64(v) for k, v in inp["files"].items()},
+        "targets": inp["targets"],
+        "classes": {c: {"single_fault_runs": sorted(e["single"]), "all_runs": len(e["all"])} for c, e in sorted(classes.items())},
+        "first": {"faults": first_fl, "class": first_cls, "file": first_file, "observed": first_txt},
+        "expected": "original in {FILE, FILE.bk}; FILE in {absent, original, formatted}; uninterrupted run: FILE=formatted, "
+        "BK=original, exit 0; injected error: exit 1; order write(tmp) -> rename(FILE,bk) -> rename(tmp,FILE)",
+        "recorded_mutating_calls": [results[0][1]["log"].short(c) for c in results[0][1]["log"].muts],
+        "failing": [{"faults": fl, "label": fault_label(fl), "class": c, "file": f, "observed": t} for fl, c, f, t in bad[:80]],
+        "failing_total": len(bad),
+        "shell": shell_repro(inp, mode, first_fl),
+    }
+    run.violation(case, what, detail)
 
 
 def rerun(argv_fn, inp, faults):
@@ -914,9 +926,10 @@ def replay(path):
                 print("    stderr:", r["stderr"].strip()[-200:])
             for c, f, txt in vs:
                 print(f"    VIOLATED {c} [{f}]: {txt}")
-            if any(c == d["class"] for c, _f, _t in vs):
+            want = {y["class"] for y in d["failing"] if y["label"] == x["label"]}
+            if want & {c for c, _f, _t in vs}:
                 still += 1
-        print(f"{still} of {len(todo)} recorded failing points still violate '{d['class']}'")
+        print(f"{still} of {len(todo)} recorded failing points still violate the property")
         print("shell reproduction of the first one:\n " + d["shell"])
         sys.exit(1 if still else 0)
 
